@@ -348,7 +348,7 @@ package scanner
 //@   ensures imp(result == nil && s.curIndex < s.dataSize, scanOK(s, s.step, s.curIndex + 1))
 //@   ensures imp(result == nil && s.curIndex == s.dataSize, s.gOpen == 0 || s.gOpenAt <= s.dataSize)
 //@   ensures 0 <= s.gFree && s.gFree >= old(s.gFree)
-//@   symmetric[C08,@nl] c: '\n' ~ '\r'
+//@   symmetric[C08,C11,@nl] c: '\n' ~ '\r'
 //@   symmetric[C08,@ws] c: ' ' ~ '\t'
 //@   ensures[C13,@kw-step] imp(isLetterState(self) && result == nil,
 //@       (isLetterState(s.step) && lit(s.step) == lit(self) + char(c) && s.gOpen == 1)
